@@ -168,6 +168,20 @@ func mkMessage(id, n int) *message {
 	return m
 }
 
+var bigBase []byte
+
+// mkBigMessage: messages around the size limit share one backing buffer (they are used one
+// after the other) and carry no digest; first-touch page faults are the dominant cost here.
+func mkBigMessage(id, n, maxN int) *message {
+	if len(bigBase) < maxN {
+		bigBase = make([]byte, maxN)
+		for j := range bigBase {
+			bigBase[j] = byte(id<<4) | byte((uint32(j)*2654435761)>>13)&0x0F
+		}
+	}
+	return &message{id: id, size: n, payload: bigBase[:n:n], hash: "(not hashed)"}
+}
+
 func dropPayloadCache() {
 	payloadMu.Lock()
 	payloadCache = map[[2]int]*message{}
@@ -238,6 +252,8 @@ type world struct {
 	timer   *time.Timer
 	errMu   sync.Mutex
 	wire    []string
+	gcEvery int
+	drains  int
 }
 
 var (
@@ -454,6 +470,11 @@ func (w *world) drain(q qid) {
 	}
 	w.wire = append(w.wire, fmt.Sprintf("L%d:T%d:%s", q.link, q.topic, tag))
 	l.rconn.rd.waitIdle()
+	if w.gcEvery > 0 {
+		if w.drains++; w.drains%w.gcEvery == 0 {
+			runtime.GC() // recycle the per-packet buffers (size-limit cases run without a pacer)
+		}
+	}
 }
 
 // ---------------------------------------------------------------------------------------
